@@ -107,6 +107,14 @@ def distribute(
                 )
                 break
 
+    for agent in agentsdef:
+        pinned = sum(f for a, f in fixed_mapping.values() if a == agent.name)
+        if pinned > agent.capacity:
+            raise ImpossibleDistributionException(
+                f"Not enough capacity on {agent.name} for the computations "
+                f"with a hosting cost of 0"
+            )
+
     # Sort computation by footprint, but add a random element to avoid sorting on names
     computations = [
         (computation_memory(n), n, None, random.random())
